@@ -247,6 +247,51 @@ def run_c03(res, tier, seed):
             stats["contained"] += 1
         else:
             follow.append((idx, bad, offs))
+    # the item-wise view of the module loop (Lean `Items.parseItems`: every item parsed from a fresh state - the subject of
+    # item_suffix_local, item_prefix_det and C03_conditional) against the implementation's top-level nodes, on damaged and
+    # undamaged files: same number of items, each from the same first to the same last token
+    tie_texts = []
+    for idx in range(0, len(cases), max(1, len(cases) // (400 if tier == "quick" else 6000))):
+        items, texts, new_texts, v, log = cases[idx]
+        tie_texts.append("\n".join(new_texts))
+        if idx % 3 == 0:
+            tie_texts.append("\n".join(texts))
+    tk, _ = common.run_lines(common.DRIVER_BIN, ["trivia-kinds"])
+    trivia = set(int(x) for x in tk[0].split()) if tk and tk[0] and tk[0] != "bad-op" else None
+    if trivia is not None:
+        mo, _ = common.run_lines(common.DRIVER_BIN, ["items\t" + hexs(t) for t in tie_texts])
+        io, _ = common.run_lines(common.HARNESS_BIN, ["parse\t" + hexs(t) for t in tie_texts])
+        res.cov["evaluations"] += len(tie_texts)
+        res.cov["item_view_tie"] = len(tie_texts)
+        for t, m, a in zip(tie_texts, mo, io):
+            if not a.startswith("ok (") or m == "none":
+                if a.startswith("ok (") and m == "none":
+                    res.disagreements.append(("items\t" + hexs(t), "parses", "the item-wise loop fails"))
+                continue
+            tree = a[3:].split(" | ")[0]
+            # top-level children of the root: byte range from the first to the last non-trivia token of each node
+            depth, off, cur, got = 0, 0, None, []
+            for tokn in tree.replace("(", " ( ").replace(")", " ) ").split():
+                if tokn == "(":
+                    depth += 1
+                    if depth == 2:
+                        cur = [None, None]
+                elif tokn == ")":
+                    if depth == 2 and cur is not None:
+                        if cur[0] is not None:
+                            got.append(f"{cur[0]}-{cur[1]}")
+                        cur = None
+                    depth -= 1
+                elif ":" in tokn:
+                    k, ln = tokn.split(":")
+                    if depth >= 2 and cur is not None and int(k) not in trivia:
+                        if cur[0] is None:
+                            cur[0] = off
+                        cur[1] = off + int(ln)
+                    off += int(ln)
+            want_m = m.split()[1:]
+            if got != want_m:
+                res.disagreements.append(("items\t" + hexs(t), " ".join(got), " ".join(want_m)))
     # classify each failure by where the victim's closing brace and the next definition's first token ended up
     areqs = []
     for (idx, bad, offs) in follow:
